@@ -8,5 +8,10 @@ rev=${1:-WORKTREE}; shift
 d=/var/tmp/imverif-confirm-$$; rm -rf $d; mkdir -p $d
 if [ "$rev" = WORKTREE ]; then rsync -a --exclude .git /repo/ $d/; else git -C /repo archive "$rev" | tar -x -C $d; fi
 cp /verif/confirm/*_test.go $d/
-( cd $d && go test -vet=off -count=1 "$@" . 2>&1 | grep -v "^=== RUN" | tail -60 )
+# in-package triage tests: confirm/pkg/<path>/*_test.go go to <path> of the copy
+pkgs="."
+if [ -d /verif/confirm/pkg ]; then
+  for f in $(cd /verif/confirm/pkg && find . -name '*_test.go'); do mkdir -p $d/$(dirname $f); cp /verif/confirm/pkg/$f $d/$f; pkgs="$pkgs ./$(dirname $f)"; done
+fi
+( cd $d && go test -vet=off -count=1 "$@" $(echo $pkgs | tr ' ' '\n' | sort -u) 2>&1 | grep -v "^=== RUN" | tail -60 )
 rm -rf $d
